@@ -648,9 +648,11 @@ func (e *Engine) eval(env *Env, x ast.Expr) (Val, types.Type) {
 				return Sc{fmt.Sprintf("(sat %s %s)", xv.T, idx)}, types.Typ[types.Uint8]
 			}
 			if mt, ok := under(t).(*types.Map); ok {
-				_, val, _, _, _, ok := e.mapComps(env.heap, t)
+				dom, val, _, _, _, ok := e.mapComps(env.heap, t)
 				if ok {
-					r := fmt.Sprintf("(select (select %s %s) %s)", val, xv.T, idx)
+					// Go semantics: a missing key (or a nil map) yields the zero value
+					zero := e.scalar(e.zero(mt.Elem()))
+					r := fmt.Sprintf("(ite (and (not (= %s 0)) (select (select %s %s) %s)) (select (select %s %s) %s) %s)", xv.T, dom, xv.T, idx, val, xv.T, idx, zero)
 					if p, isP := under(mt.Elem()).(*types.Pointer); isP {
 						return PtrV{&Loc{Kind: LObj, Ref: r, T: p.Elem()}}, mt.Elem()
 					}
